@@ -93,6 +93,7 @@ def check_C07(ctx):
     chars_jobs(ctx, ["Inv_C07"], [{"op": "tokenize"}], multi_token)
     atoms_jobs(ctx, ["Inv_C07"], [{"op": "tokenize"}], multi_token)
     junk_jobs(ctx, ["Inv_C07"], [{"op": "tokenize"}], multi_token)
+    repo_docs_job(ctx, ["Inv_C07"], [{"op": "tokenize"}])
 
 
 def tok_model_checking(ctx):
@@ -124,6 +125,7 @@ def check_C08(ctx):
     chars_jobs(ctx, ["Inv_C08"], [{"op": "tokenize"}], has_tag_token)
     atoms_jobs(ctx, ["Inv_C08"], [{"op": "tokenize"}], has_tag_token)
     junk_jobs(ctx, ["Inv_C08"], [{"op": "tokenize"}], has_tag_token)
+    repo_docs_job(ctx, ["Inv_C08"], [{"op": "tokenize"}])
 
 
 def junk_jobs(ctx, invariants, ops, nontrivial, count=None, maxlen=None):
@@ -162,6 +164,7 @@ def check_C01(ctx):
                                      cfg={"off": off, "targets": targets, "now": [0, 0]})
                                 for (off, targets) in [("", []), ("UTC", ["a"]), ("+25:00", ["", "a"])]],
             invariants=["Inv_C01"], ops=ops, cfg={"ds": "<", "de": ">"}, nontrivial=None)
+    repo_docs_job(ctx, ["Inv_C01"], LIST_OPS)
 
 
 PAST = "2000-01-01 00:00:00"
@@ -305,6 +308,39 @@ def conformance_job(ctx, invariants):
             cfg={"ds": "<", "de": ">"}, nontrivial=has_ready, fmt_hooks=True, conform=True)
 
 
+REPO_DOCS = [
+    ("chiritori/src/integration-test-fixtures/test001.input.js", {"ds": "/* <", "de": "> */", "tl": "time-limited", "rm": "marker", "targets": ["feature1"]}),
+    ("chiritori/src/integration-test-fixtures/test002.input.js", {"ds": "/* <", "de": "> */", "tl": "time-limited", "rm": "marker", "targets": ["feature1"]}),
+    ("samples/sample-code.js", {"ds": "// --", "de": "-- //", "tl": "time-limited-code", "rm": "removal-marker", "targets": ["awesome-feature"]}),
+    ("samples/sample-code.html", {"ds": "<!-- <", "de": "> -->", "tl": "time-limited", "rm": "removal-marker", "targets": []}),
+]
+
+
+def repo_docs_job(ctx, invariants, ops):
+    """the repository's own fixtures and samples, read from the working tree, under their documented configuration:
+    the existing tests compare them with golden files; here every property predicate is evaluated on them"""
+    import json
+    import os
+    from engine import DEFAULT_CFG
+    from vlib import WORK, REPO, cfg_json, cps
+    path = os.path.join(WORK, "repo_docs_%s.ndjson" % ctx.prop)
+    n = 0
+    with open(path, "w") as f:
+        for (rel, cfg) in REPO_DOCS:
+            p = os.path.join(REPO, rel)
+            if not os.path.exists(p):
+                continue
+            src = open(p, encoding="utf-8").read()
+            for now in ([18000, 0], [30000, 0]):
+                c = dict(DEFAULT_CFG, **cfg)
+                c["now"] = now
+                f.write(json.dumps({"id": "repo:%s@%d" % (os.path.basename(rel), now[0]), "gen": "repo-docs", "src": cps(src),
+                                    "cfg": cfg_json(c), "ops": ops}) + "\n")
+                n += 1
+    if n:
+        ctx.job("repo-docs", gens=[{"file": path}], invariants=invariants, ops=ops, nontrivial=has_ready)
+
+
 def check_C02(ctx):
     impl_model_checking(ctx)
     conformance_job(ctx, ["Inv_C02"])
@@ -312,6 +348,7 @@ def check_C02(ctx):
     unwrap_jobs(ctx, ["Inv_C02"], [{"op": "clean"}])
     inline_jobs(ctx, ["Inv_C02"], [{"op": "clean"}])
     junk_jobs(ctx, ["Inv_C02"], [{"op": "clean"}], has_ready)
+    repo_docs_job(ctx, ["Inv_C02"], [{"op": "clean"}])
 
 
 def check_C03(ctx):
@@ -319,6 +356,7 @@ def check_C03(ctx):
     unwrap_jobs(ctx, ["Inv_C03"], [{"op": "clean"}])
     inline_jobs(ctx, ["Inv_C03"], [{"op": "clean"}])
     junk_jobs(ctx, ["Inv_C03"], [{"op": "clean"}], has_ready)
+    repo_docs_job(ctx, ["Inv_C03"], [{"op": "clean"}])
 
 
 def check_C04(ctx):
@@ -327,24 +365,29 @@ def check_C04(ctx):
     inline_jobs(ctx, ["Inv_C04"], [{"op": "clean"}])
     chars_jobs(ctx, ["Inv_C04"], [{"op": "clean"}], None, pairs_quick=2)
     junk_jobs(ctx, ["Inv_C04"], [{"op": "clean"}], None)
+    repo_docs_job(ctx, ["Inv_C04"], [{"op": "clean"}])
 
 
 def check_C11(ctx):
     unwrap_jobs(ctx, ["Inv_C11"], [{"op": "clean"}])
+    repo_docs_job(ctx, ["Inv_C11"], [{"op": "clean"}])
 
 
 def check_C12(ctx):
     unwrap_jobs(ctx, ["Inv_C12"], [{"op": "clean"}])
+    repo_docs_job(ctx, ["Inv_C12"], [{"op": "clean"}])
 
 
 def check_C13(ctx):
     block_jobs(ctx, ["Inv_C13"], [{"op": "clean"}])
+    repo_docs_job(ctx, ["Inv_C13"], [{"op": "clean"}])
 
 
 def check_C14(ctx):
     block_jobs(ctx, ["Inv_C14"], [{"op": "clean"}], lite=True)
     unwrap_jobs(ctx, ["Inv_C14"], [{"op": "clean"}], lite=False)
     inline_jobs(ctx, ["Inv_C14"], [{"op": "clean"}])
+    ctx.quick or repo_docs_job(ctx, ["Inv_C14"], [{"op": "clean"}])
 
 
 def ref_model_checking(ctx):
@@ -366,6 +409,7 @@ def check_C15(ctx):
     block_jobs(ctx, ["Inv_C15"], ops, lite=True)
     unwrap_jobs(ctx, ["Inv_C15"], ops, lite=True)
     inline_jobs(ctx, ["Inv_C15"], ops, lite=True)
+    repo_docs_job(ctx, ["Inv_C15"], [{"op": "clean"}, {"op": "list_json"}, {"op": "list"}, {"op": "list_json"}])
 
 
 def tab_column_jobs(ctx, invariants, ops):
@@ -398,6 +442,7 @@ def check_C16(ctx):
     block_jobs(ctx, ["Inv_C16"], ops, lite=True)
     unwrap_jobs(ctx, ["Inv_C16"], ops, lite=True)
     inline_jobs(ctx, ["Inv_C16"], ops, lite=True)
+    repo_docs_job(ctx, ["Inv_C16"], [{"op": "list_json"}, {"op": "list"}, {"op": "list_all_json"}, {"op": "list_all"}])
 
 
 def check_C17(ctx):
@@ -408,6 +453,7 @@ def check_C17(ctx):
                                   lines_gen(7 if ctx.quick else 9, 2, 3, ["Ru", "P", "Pu"], blank=False),
                                   lines_gen(7 if ctx.quick else 9, 3, 3, ["S", "P", "R"], blank=False)],
             invariants=["Inv_C17"], ops=ops, cfg={"ds": "<", "de": ">"}, nontrivial=has_ready)
+    repo_docs_job(ctx, ["Inv_C17"], [{"op": "list_json"}, {"op": "list_all_json"}])
 
 
 
@@ -548,6 +594,7 @@ def check_C10(ctx):
     block_like = [lines_gen(7 if q else 9, 3, 3, ["R", "P", "Ru"], blank=False)]
     ctx.job("tree-in-clean", gens=block_like, invariants=["Inv_C10"], ops=[{"op": "clean"}], cfg={"ds": "<", "de": ">"},
             nontrivial=has_ready)
+    repo_docs_job(ctx, ["Inv_C10"], [{"op": "tree"}, {"op": "clean"}])
 
 
 def check_C18(ctx):
